@@ -94,6 +94,21 @@ Theorem C13_reuse : forall sn e pl r h,
 Proof. exact reuse. Qed.
 Print Assumptions C13_reuse.
 
+(** Faithfulness over every history (same steps): each replica set of the ExtendedDaemonSet records, as its
+    annotation and its templateGeneration, the hash of the template it holds - the one it was created from - and
+    every pod it creates is stamped with that hash. *)
+Theorem C13_history_faithful : forall s s', clos_refl_trans _ hstep s s' ->
+  all_faithful (fst s) (snd s) -> all_faithful (fst s') (snd s').
+Proof. exact history_faithful. Qed.
+Print Assumptions C13_history_faithful.
+
+Theorem C13_history_pods_carry_recorded_hash : forall e rss sn ch pl nn np,
+  all_faithful e rss -> In (sn_rs sn) rss -> own e (sn_rs sn) = true ->
+  ers_sync sn ch = Ok pl -> In (nn, np) (pl_new_pods pl) ->
+  r_hash_annot (sn_rs sn) = Some (np_hash np) /\ r_tmpl_hash (sn_rs sn) = np_hash np.
+Proof. exact pods_carry_recorded_hash. Qed.
+Print Assumptions C13_history_pods_carry_recorded_hash.
+
 (** the empty store satisfies the invariant, so every store reached from it does *)
-Example C13_history_starts : forall e, one_per_template e [].
-Proof. intros e. constructor. Qed.
+Example C13_history_starts : forall e, one_per_template e [] /\ all_faithful e [].
+Proof. intros e. split; [constructor | intros r Hr; destruct Hr]. Qed.
